@@ -1256,7 +1256,7 @@ impl<'a, 'b> Script<'a, 'b> {
         let sut = self.sut;
         let p = *self.t.pick(&self.puppets.clone());
         let from = p as u32 + 1;
-        let kind = self.t.below(14);
+        let kind = self.t.below(15);
         let port_choice = self.t.below(3);
         let base = [CONSENSUS_PORT, MEMPOOL_PORT, TX_PORT][port_choice];
         let port = base + sut as u16;
@@ -1462,6 +1462,32 @@ impl<'a, 'b> Script<'a, 'b> {
                 decoded = true;
                 let _ = self.conns.tx(100 + from, sut, tx).await;
                 name = format!("tx-len-{}", len);
+            }
+            13 => {
+                // a well-formed batch whose bytes ALSO decode as a block (bincode tolerates nothing
+                // here: the 20-byte batch header becomes the start of the block's parent hash), stored
+                // by the mempool in the shared store, then a SyncRequest for its digest: the consensus
+                // helper reads a "block" with an unknown parent, no votes and an arbitrary round
+                let author_text = self.w.pk(p).encode_base64();
+                let mut tx: Vec<u8> = Vec::new();
+                tx.extend(self.t.bytes(12)); // rest of qc.hash
+                tx.extend(self.t.range(0, 50).to_le_bytes()); // qc.round
+                tx.extend(0u64.to_le_bytes()); // qc.votes: none
+                tx.push(0); // tc: None
+                tx.extend((author_text.len() as u64).to_le_bytes());
+                tx.extend(author_text.as_bytes());
+                tx.extend(self.t.range(0, 60).to_le_bytes()); // round
+                tx.extend(0u64.to_le_bytes()); // payload: none
+                tx.extend([7u8; 64]); // signature
+                let bytes = bincode::serialize(&MempoolMessage::Batch(vec![tx])).unwrap();
+                let as_block = bincode::deserialize::<Block>(&bytes).is_ok();
+                let d = sha512_32(&bytes);
+                self.batches.insert(d.clone(), bytes.clone());
+                let _ = self.conns.mempool(p, sut, bytes).await;
+                tokio::time::sleep(ms(4)).await;
+                decoded = true;
+                self.send_to_sut(p, &ConsensusMessage::SyncRequest(d, self.w.pk(p))).await;
+                name = if as_block { "sync-request-for-batch-that-decodes-as-block".into() } else { "sync-request-for-crafted-batch".into() };
             }
             _ => {
                 // sync request from an unknown authority, for unknown digests
